@@ -84,6 +84,9 @@ pub fn gen_radial(rng: &mut Rng) -> Item {
             }
         }
     }
+    if rng.chance(1, 4) {
+        spec.loosen_frameable(rng);
+    }
     let body = spec.encode(rng);
     let bytes = enc::msg31_bytes(&hdr, &body);
     Item::Radial { hdr, spec, bytes }
@@ -147,15 +150,25 @@ pub fn check_stream(obs: &mut Obs, items: &[Item], via_record: bool, shape: u64)
     let replay = json!({"kinds": kinds(items), "stream_len": stream.len(), "via_record": via_record,
         "stream_hex": crate::ev::hex(&stream[..stream.len().min(6000)])});
     let mut pos_after = 0u64;
+    // (without nexrad-data - the reduced-feature lane - every stream goes through decode_messages)
+    #[cfg(not(feature = "data"))]
+    let via_record = { let _ = via_record; false };
     let decoded = if via_record {
-        let rec = nexrad_data::volume::Record::new(stream.clone());
-        match mon::catch(|| rec.messages()) {
-            Err(p) => Err((format!("Record::messages {}", p.signature()), p.message)),
-            Ok(Err(e)) => Err(("Record::messages error on well-formed stream".to_string(), format!("{e:?}"))),
-            Ok(Ok(v)) => {
-                pos_after = stream.len() as u64;
-                Ok(v)
+        #[cfg(feature = "data")]
+        {
+            let rec = nexrad_data::volume::Record::new(stream.clone());
+            match mon::catch(|| rec.messages()) {
+                Err(p) => Err((format!("Record::messages {}", p.signature()), p.message)),
+                Ok(Err(e)) => Err(("Record::messages error on well-formed stream".to_string(), format!("{e:?}"))),
+                Ok(Ok(v)) => {
+                    pos_after = stream.len() as u64;
+                    Ok(v)
+                }
             }
+        }
+        #[cfg(not(feature = "data"))]
+        {
+            unreachable!()
         }
     } else {
         let dribble = shape % 3 == 0;
